@@ -6,10 +6,15 @@ import LitexProofs.Stream.HandshakeGearbox
 import LitexModel.Stream.NumG
 import LitexProofs.Stream.HandshakePacket
 import LitexProofs.Stream.HandshakePacketFifo
+import LitexProofs.Stream.HandshakePacketFifoBuffered
 import LitexProofs.Stream.HandshakeArbiter
 import LitexProofs.Stream.HandshakePacketizer
+import LitexProofs.Stream.HandshakePacketizerU
 import LitexProofs.Stream.HandshakeLive
 import LitexProofs.Stream.HandshakeGlue
+import LitexProofs.Stream.HandshakePipeActor
+import LitexProofs.Stream.HandshakeCrossbar
+import LitexProofs.Stream.HandshakeGearboxLive
 /-
   INVENTORY (session 2) — every class of the two anchor files, with its C04 theorems and how the model is tied.
   stab = handshake stability (`KeepsContract`, or the trace form for routers); prog = progress / no livelock
@@ -37,14 +42,14 @@ import LitexProofs.Stream.HandshakeGlue
   | _DownConverter / Unpack       | downConv r                           | downConv_stable           | no_livelock 1, accepts r              | yes  | A,B `down …`                        |
   | _IdentityConverter            | downConv 1 / wire                    | downConv_stable           | no_livelock 1                         | yes  | A `converter n n`                   |
   | Converter (class selection)   | converterKind + the class chosen     | converter_up/down_stable  | converter_up/down_no_livelock         | yes  | A,B `converter nf nt …` + calls     |
-  | StrideConverter               | strideUp r / downConv r (+ Cast)     | strideUp_stable, downConv | accepts 1, no_livelock r+1 / 1        | up: via upConv | A,B `strideup`, `stridedown` |
-  | Gearbox i o                   | gearbox (ioLcm i o) i o              | gearbox_stable (all i,o>0)| progress 1, no_livelock ⌈o/i⌉+1       | no (open) | A,B `gearbox i o msb`          |
+  | StrideConverter               | strideUp r / downConv r (+ Cast)     | strideUp_stable, downConv | accepts 1, no_livelock r+1 / 1        | yes  | A,B `strideup`, `stridedown`        |
+  | Gearbox i o                   | gearbox (ioLcm i o) i o              | gearbox_stable (all i,o>0)| progress 1, no_livelock ⌈o/i⌉+1       | yes  | A,B `gearbox i o msb`               |
   | Cast / CombinatorialActor     | mapElem f                            | cast_stable               | no_livelock 1, accepts 1              | yes  | A,B `cast …`                        |
   | Gate                          | gate srd (enable with the sink wires)| gate_stable(+_sharp)      | gate_no_livelock 1 (enabled)          | n/a (control input) | A,B `gate srd`        |
-  | Shifter / PipelinedActor(2)   | shifter dw                           | shifter_stable (ShiftHeld)| accepts 1, no_livelock 3              | no   | A,B `shifter dw`                    |
-  | PipelinedActor(L), BinaryActor| pipeActor L                          | OPEN (model tied by C03)  | OPEN (measured K' = L+1)              | no   | C03 only (`pipeactor L`)            |
+  | Shifter / PipelinedActor(2)   | shifter dw                           | shifter_stable (ShiftHeld)| accepts 1, no_livelock 3              | n/a (control input) | A,B `shifter dw`     |
+  | PipelinedActor(L), BinaryActor| pipeActor L (every L ≥ 0)            | pipeActor_stable          | pipeActor_progress (acc 1), no_livelock L+1 | yes | A,B `pipeactor L`               |
   | Multiplexer / Demultiplexer   | muxOut / demuxOut                    | mux_stable, demux_stable (sel held) | mux_progress, demux_progress | n/a | R,B0 `mux n`, `demux n`, `muxw`, `demuxw` |
-  | Crossbar                      | crossbar n (= demux ∘ mux)           | via mux/demux only        | via mux/demux only                    | n/a  | C03 only (`crossbar n`)             |
+  | Crossbar                      | crossbar n (= demux ∘ mux)           | crossbar_stable (sels with the sink wires) | crossbar_no_livelock 1 (routed) | n/a (control) | A,B `crossbar n`        |
   | Monitor                       | monitored e (Monitor on e.source)    | monitored_stable          | monitored_no_livelock, _transparent   | yes  | A,B `monitored …`; B0 read-back of the watched endpoint |
   | EndpointDescription, Endpoint | layouts only (C03 DW checks)         | —                         | —                                     | —    | —                                   |
 
@@ -54,9 +59,10 @@ import LitexProofs.Stream.HandshakeGlue
   | Dispatcher                    | dispatcher m oneHot                  | (comb: as Demultiplexer)  | dispatcher_progress 1                 | —    | AP,BP `dispatcher m oh`             |
   | Packetizer (aligned)          | packetizer c                         | packetizer_stable         | packetizer_no_livelock 1              | —    | AP,BP `packetizer …`                |
   | Depacketizer (aligned)        | depacketizer c                       | depacketizer_stable       | depacketizer_no_livelock W+1          | —    | AP,BP `depacketizer …`              |
-  | Packetizer/Depack. unaligned  | C16 models                           | OPEN (monitors, UOk dom.) | OPEN (monitors; 4 open C16 findings)  | —    | AP,BP                               |
+  | Packetizer, any header length | packetizer c                         | packetizer_stable_partial (FlushHeld; neg. witness) | packetizer_no_livelock_any 1; sink service: neg. witness (C16 single-beat) | — | AP,BP |
+  | Depacketizer unaligned        | depacketizer c                       | OPEN (monitors, UOk dom.) | OPEN (monitors; open C16 findings)    | —    | AP,BP                               |
   | PacketFIFO plain              | packetFifo pd qd                     | (FIFO outputs: syncFifo)  | packetfifo_progress 1, no_livelock pd+1 (packets ≤ pd) | — | AP,BP `packetfifo` |
-  | PacketFIFO buffered           | packetFifoBuffered                   | OPEN                      | OPEN (measured 1 / pd+2)              | —    | AP,BP `packetfifo_buffered`         |
+  | PacketFIFO buffered           | packetFifoBuffered pd qd (pd,qd ≥ 2) | (register outputs)        | packetfifo_buffered_progress 1, no_livelock pd+2 (packets ≤ pd) | — | AP,BP `packetfifo_buffered` |
   | Header, HeaderField           | C16                                  | —                         | —                                     | —    | C16                                 |
 -/
 /-
@@ -77,8 +83,11 @@ import LitexProofs.Stream.HandshakeGlue
     served); `…WithinC e C K` are the same with a stronger cooperation assumption `C` on each cycle (Gate: enabled).
   * `KeepsContractX e X`  — `KeepsContract` under an extra, explicit assumption `X` on each cycle boundary
     (Shifter: `shift` held while a token waits at the source).
-  Every bound `K` below is tight: the harness measures, from every explored state of the real netlist, the longest
-  cooperative run without a handshake / delivery / sink handshake, and reports any excess over `K` as a disagreement.
+  The bounds `K` of the single elements are tight: the harness measures, from every explored state of the real
+  netlist, the longest cooperative run without a handshake / delivery / sink handshake, and reports any excess over
+  `K` as a disagreement.  The bounds obtained through the composition-closed class `Live` (`pipeline_*`, `bufferize_*`,
+  `compose_good`) are products of the element windows: valid for every composition, tight for cascaded converters,
+  generous for chains of identity stages (measured: about the sum); the harness enforces them as upper bounds.
 -/
 namespace Litex.C04
 open Litex.Stream Litex.Stream.Elem
@@ -798,11 +807,87 @@ theorem monitored_pipeline (z : Tok α) (l : List Stage) (hl : ∀ st ∈ l, sta
   ⟨monitored_stable (stages_good z l hl) (pipeInv_init z l) w cfg df,
    monitored_no_livelock (stages_good z l hl) (pipeInv_init z l) w cfg df⟩
 
+/-- Non-vacuity: a PipeValid with a 4-bit token counter on its source — three cooperative cycles deliver two tokens
+    and the counter has counted exactly those two source handshakes. -/
+example :
+    let m := monitored (stages zTok [.pv]) 4 ⟨true, false, false, false⟩ false
+    let c : In Nat := ⟨true, ⟨1, false, true⟩, true⟩
+    (m.delivered m.init [c, c, c]).length = 2 ∧ (m.runFrom m.init [c, c, c]).2.tokens.count = 2 := by decide
+
+/-- Non-vacuity for BufferizeEndpoints (both endpoints, pipe_valid and pipe_ready, around `_UpConverter(ratio 2)`):
+    window (1·2)·3·(1·2) = 12; seven cooperative cycles from reset deliver two words, four deliver none. -/
+example :
+    let e := bufferize true true true true zUpIn (zUpOut 2) (upConv 2 0 0)
+    let c : In (Nat × Nat) := ⟨true, ⟨(1, 0), false, false⟩, true⟩
+    (pipeB (bufferStages true true) + 1) * (2 + 1) * (pipeB (bufferStages true true) + 1) = 12 ∧
+    (e.delivered e.init (List.replicate 7 c)).length = 2 ∧ (e.delivered e.init (List.replicate 4 c)).length = 0 := by
+  decide
+
 /-- What the counter shows: below saturation the token counter advances exactly on a source handshake. -/
 theorem monitor_counts_handshakes (w : Nat) (cfg : MonCfg) (df : Bool) (s : MonState) (i : MonIn)
     (ht : cfg.tokens = true) (hr : i.reset = false) (hsat : s.tokens.count + 1 < 2 ^ w) :
     ((monitor w cfg df).next s i).tokens.count = s.tokens.count + (if i.valid && i.ready then 1 else 0) :=
   monitor_tokens_next w cfg df s i ht hr hsat
+
+/-! ## PipelinedActor(latency = L) / BinaryActor control path, EVERY L (`pipe_ce = source.ready | ~valid_L`) -/
+
+theorem pipeActor_stable (L : Nat) (z : Tok α) : KeepsContract (pipeActor L z) :=
+  (pipeActor_good L z).keepsContract (by simp [paInv, pipeActor])
+
+/-- `sink.ready = pipe_ce` follows `source.ready`: the sink is served in every cooperative cycle. -/
+theorem pipeActor_progress (L : Nat) (z : Tok α) : AcceptsWithin (pipeActor L z) 1 :=
+  (pipeActor_readyTransparent L z).accepts (by simp [paInv, pipeActor]) (pipeActor_inv_step L z)
+
+/-- A token offered at the latest `L + 1` cooperative cycles after any reachable state (`trail` = number of empty
+    trailing stages is the measure); `L = 0` is the combinational actor. -/
+theorem pipeActor_no_livelock (L : Nat) (z : Tok α) : DeliversWithin (pipeActor L z) (L + 1) :=
+  (pipeActor_good L z).delivers (by simp [paInv, pipeActor])
+
+/-- Non-vacuity (L = 3): from reset the first delivery needs exactly 4 cooperative cycles. -/
+example :
+    let e := pipeActor 3 (⟨0, false, false⟩ : Tok Nat)
+    let c : In Nat := ⟨true, ⟨1, true, false⟩, true⟩
+    (e.delivered e.init [c, c, c, c]).length = 1 ∧ (e.delivered e.init [c, c, c]).length = 0 := by decide
+
+/-! ## Crossbar (Demultiplexer feeding Multiplexer): both selectors travel with the sink wires, so the producer
+    contract includes "selectors held while the token is refused" (negative witnesses: `mux`/`demux` above) -/
+
+theorem crossbar_stable (n : Nat) (z : α) : KeepsContract (crossbar n z) :=
+  keepsContract_of_stepStable (crossbar_stepStable n z) trivial
+
+/-- Cooperative and routed (`demux.sel = mux.sel < n`): a delivery in every cycle. -/
+theorem crossbar_no_livelock (n : Nat) (z : α) : DeliversWithinC (crossbar n z) (XbarCoop n) 1 :=
+  deliversWithin_of_window _ (fun _ => True) trivial (fun _ _ _ => trivial) 1
+    (fun s ins _ hc hl => crossbar_del_window n z s ins hc hl)
+
+/-- Negative witness for the routing condition: selectors that disagree deliver nothing, however cooperative. -/
+example :
+    let c : In (Nat × Nat × Nat) := ⟨true, ⟨(5, 0, 1), false, false⟩, true⟩
+    ((crossbar 2 (0 : Nat)).delivered () [c, c, c]).length = 0 := by decide
+
+/-! ## Gearbox and StrideConverter(up) are members of the class too: they may stand anywhere in a pipeline -/
+
+theorem gearbox_in_class (i o : Nat) (hi : 0 < i) (ho : 0 < o) (z : α) :
+    Good (gearbox (ioLcm i o) i o z) (gbInv (ioLcm i o) i o z) (gbMu i o) ((o + (i - 1)) / i) :=
+  gearbox_good i o hi ho z
+
+theorem strideUp_in_class {π : Type} (r : Nat) (hr : 0 < r) (z : α) (p0 : π) :
+    Good (strideUp r z p0) (fun s => upInv r s.1) (fun s => upMu r s.1) r :=
+  strideUp_good r hr z p0
+
+theorem pipeActor_in_class (L : Nat) (z : Tok α) : Good (pipeActor L z) (paInv L) trail L := pipeActor_good L z
+
+/-- Example with no side condition: `PipeReady ⟫ Gearbox(i, o) ⟫ SyncFIFO(d)` for all widths and depths. -/
+theorem gearbox_chain (i o d : Nat) (hi : 0 < i) (ho : 0 < o) (hd : 0 < d) (z : α) (z1 z2 : Tok (List α)) :
+    KeepsContract ((pipeReady z1).comp ((gearbox (ioLcm i o) i o z).comp (syncFifo d z2))) ∧
+    DeliversWithin ((pipeReady z1).comp ((gearbox (ioLcm i o) i o z).comp (syncFifo d z2)))
+      ((1 * ((o + (i - 1)) / i + 1) + (o + (i - 1)) / i) * (0 + 1) + 0 + 1) := by
+  obtain ⟨hiL, hoL, h2i, h2o⟩ := ioLcm_facts i o hi ho
+  have g := compose_good (pipeReady_good z1) (compose_good (gearbox_good i o hi ho z) (syncFifo_good d hd z2))
+  have h0 : prInv (pipeReady z1).init ∧ gbInv (ioLcm i o) i o z (gearbox (ioLcm i o) i o z).init ∧
+      fifoInv d (syncFifo d z2).init :=
+    ⟨by simp [prInv, pipeReady], gbInv_init _ i o hi ho h2i h2o z, by simp [fifoInv, syncFifo]⟩
+  exact ⟨g.keepsContract h0, g.delivers h0⟩
 
 /-! ## packet.Dispatcher -/
 
@@ -859,6 +944,45 @@ example :
     e.hsCount (e.runFrom e.init [b false, b false]) [b true, b true, b true] = 0 ∧
     (e.delivered e.init [b false, b true, b false, b true]).length = 2 := by decide
 
+/-! ## packet.PacketFIFO(buffered=True) (two `SyncFIFOBuffered`; `payload_depth ≥ 2`, `param_depth + 1 ≥ 2`)
+
+  Same statements as for the plain FIFO; `PfbLegal` is the store-and-forward limit on what is stored (output register
+  + inner FIFO).  The delivery bound is one more than for the plain FIFO: a param written into an empty param FIFO
+  needs a cycle to reach its output register (`source.valid = param_fifo.source.valid`). -/
+
+theorem packetfifo_buffered_progress (pd qd : Nat) (hpd : 2 ≤ pd) (hqd : 2 ≤ qd) (pre ins : List (In Litex.Packet.PBeat))
+    (hpre : RunC (Litex.Packet.packetFifoBuffered pd qd) (Litex.Packet.PfbLegal pd)
+      (Litex.Packet.packetFifoBuffered pd qd).init pre)
+    (hins : RunC (Litex.Packet.packetFifoBuffered pd qd) (Litex.Packet.PfbCoop pd)
+      ((Litex.Packet.packetFifoBuffered pd qd).runFrom (Litex.Packet.packetFifoBuffered pd qd).init pre) ins)
+    (n : Nat) (hn : n * 1 ≤ ins.length) :
+    n ≤ (Litex.Packet.packetFifoBuffered pd qd).hsCount
+      ((Litex.Packet.packetFifoBuffered pd qd).runFrom (Litex.Packet.packetFifoBuffered pd qd).init pre) ins :=
+  Litex.Packet.packetFifoBuffered_progress_run pd qd hpd hqd _
+    (Litex.Packet.pfbInv_reach pd qd (by omega) pre hpre) ins hins n hn
+
+/-- A beat of a complete packet is delivered at least every `payload_depth + 2` cooperative cycles. -/
+theorem packetfifo_buffered_no_livelock (pd qd : Nat) (hpd : 1 ≤ pd) (hqd : 1 ≤ qd)
+    (pre ins : List (In Litex.Packet.PBeat))
+    (hpre : RunC (Litex.Packet.packetFifoBuffered pd qd) (Litex.Packet.PfbLegal pd)
+      (Litex.Packet.packetFifoBuffered pd qd).init pre)
+    (hins : RunC (Litex.Packet.packetFifoBuffered pd qd) (Litex.Packet.PfbCoop pd)
+      ((Litex.Packet.packetFifoBuffered pd qd).runFrom (Litex.Packet.packetFifoBuffered pd qd).init pre) ins)
+    (n : Nat) (hn : n * (pd + 1 + 1) ≤ ins.length) :
+    n ≤ ((Litex.Packet.packetFifoBuffered pd qd).delivered
+      ((Litex.Packet.packetFifoBuffered pd qd).runFrom (Litex.Packet.packetFifoBuffered pd qd).init pre) ins).length :=
+  Litex.Packet.packetFifoBuffered_delivers_run pd qd hqd _ (Litex.Packet.pfbInv_reach pd qd hpd pre hpre) ins hins n hn
+
+/-- Negative witness for the limit (payload_depth 2, buffered: capacity 3): three non-last beats fill register and
+    FIFO without a complete packet; three further cooperative cycles see no handshake.  Non-vacuity: 2-beat packets
+    go through, the first delivery in the 4th (= pd + 2) cooperative cycle from reset — the bound is tight. -/
+example :
+    let e := Litex.Packet.packetFifoBuffered 2 3
+    let b (l : Bool) : In Litex.Packet.PBeat := ⟨true, ⟨⟨1, 7⟩, false, l⟩, true⟩
+    e.hsCount (e.runFrom e.init [b false, b false, b false]) [b true, b true, b true] = 0 ∧
+    (e.delivered e.init [b false, b true, b false]).length = 0 ∧
+    (e.delivered e.init [b false, b true, b false, b true]).length = 1 := by decide
+
 /-! ## packet.Arbiter (n ≥ 2 masters; model of b-c16, round-robin lemmas of b-c06/b-c16)
 
   States: everything reachable from reset (`(arbiter n).run pre`, any inputs). -/
@@ -910,6 +1034,60 @@ example :
     ((Litex.Packet.arbiter 3).out ((Litex.Packet.arbiter 3).runFrom (Litex.Packet.arbiter 3).init [i, i]) i).readys =
       [false, false, true] := by decide
 
+/-! ## packet.Packetizer, EVERY header length (aligned or not): stability
+
+  Full statement (`KeepsContract (packetizer c)` for unaligned `c`) is FALSE on the code as it is: while the residue
+  beat of a packet is flushed (`sink_d.last`, `source.valid` high without `sink.valid`) the upper bytes of
+  `source.data` — padding behind the packet's last byte — are wired to the sink data lines of a producer that offers
+  nothing; if they move while the consumer stalls, `source.data` moves.  Proved `_partial` under `FlushHeld`
+  (those lines are held during a stalled flush beat); negative witness below (same trace reproduced on the real
+  Packetizer, dw = 16, 3-byte header: source.data 0x00bb → 0xffbb with valid = 1, ready = 0). -/
+
+theorem packetizer_stable_partial (c : Litex.Packet.PkCfg) :
+    KeepsContractX (Litex.Packet.packetizer c) (Litex.Packet.FlushHeld c) :=
+  Litex.Packet.packetizer_keepsContractX c
+
+/-- Negative witness (dw = 16, H = 3): flush beat waiting, the idle producer moves its data lines 0x0000 → 0x00ff. -/
+example :
+    let c : Litex.Packet.PkCfg := ⟨2, 3⟩
+    let s : Litex.Packet.PkState :=
+      { st := .ucopy, sr := 0, count := 0, fromIdle := false, dData := 0xbbcc, dLast := true }
+    let i  : In Litex.Packet.HBeat := ⟨false, ⟨⟨0x0000, 0⟩, false, false⟩, false⟩
+    let i' : In Litex.Packet.HBeat := ⟨false, ⟨⟨0x00ff, 0⟩, false, false⟩, false⟩
+    ((Litex.Packet.packetizer c).out s i).valid = true ∧ ((Litex.Packet.packetizer c).out s i).tok.data = 0x00bb ∧
+    ((Litex.Packet.packetizer c).out ((Litex.Packet.packetizer c).step s i) i').tok.data = 0xffbb ∧
+    ¬ HoldsOut ((Litex.Packet.packetizer c).out s i)
+        ((Litex.Packet.packetizer c).out ((Litex.Packet.packetizer c).step s i) i') i := by
+  refine ⟨by decide, by decide, by decide, ?_⟩
+  intro h
+  have h2 := (h (by decide) rfl).2
+  revert h2
+  decide
+
+/-- Non-vacuity: the witness state is reachable (2-beat packet through the dw16/H3 packetizer), and `FlushHeld`
+    is satisfiable there (lines held). -/
+example :
+    let c : Litex.Packet.PkCfg := ⟨2, 3⟩
+    let e := Litex.Packet.packetizer c
+    let b (d : Nat) (l : Bool) : In Litex.Packet.HBeat := ⟨true, ⟨⟨d, 0x332211⟩, false, l⟩, true⟩
+    (e.runFrom e.init [b 0xaaaa false, b 0xaaaa false, b 0xaaaa false, b 0xbbcc true]).st = .ucopy ∧
+    (e.runFrom e.init [b 0xaaaa false, b 0xaaaa false, b 0xaaaa false, b 0xbbcc true]).dLast = true := by decide
+
+/-- Progress of the Packetizer for every header length, source side: every cooperative cycle delivers a beat. -/
+theorem packetizer_no_livelock_any (c : Litex.Packet.PkCfg) : DeliversWithin (Litex.Packet.packetizer c) 1 :=
+  (Litex.Packet.packetizer_measure_all c).delivers trivial
+
+/-- ... but the full statement "tokens keep moving" needs the *sink* to be served, and that fails for unaligned headers
+    (open finding C16-packetizer-unaligned-single-beat): dw = 16, 3-byte header, a one-beat packet offered for ever
+    under a ready consumer — the header word and the truncated beat are delivered again and again and no sink
+    handshake ever happens; with a two-beat-or-longer packet the sink is served (non-vacuity of the contrast). -/
+example :
+    let e := Litex.Packet.packetizer ⟨2, 3⟩
+    let b (l : Bool) : In Litex.Packet.HBeat := ⟨true, ⟨⟨0xbbcc, 0x332211⟩, false, l⟩, true⟩
+    (e.accepted e.init (List.replicate 12 (b true))).length = 0 ∧
+    (e.delivered e.init (List.replicate 12 (b true))).length = 12 ∧
+    (e.accepted e.init (List.replicate 12 (b false))).length = 11 := by decide
+
 /-! ## packet.Packetizer / packet.Depacketizer, header a multiple of the beat (`c.aligned`, `W ≥ 1` header words) -/
 
 theorem packetizer_stable (c : Litex.Packet.PkCfg) (ha : c.aligned = true) :
@@ -946,12 +1124,11 @@ example :
 /-
   Not proved (kept as open statements; the behaviour is validated by the correspondence and the monitors only):
 
-  theorem packetfifo_buffered_progress_open / packetfifo_buffered_no_livelock_open :
-      the `buffered=True` PacketFIFO (two SyncFIFOBuffered): handshake every cooperative cycle, delivery within
-      payload_depth + 2, for packets ≤ payload_depth.
-  theorem packetizer_unaligned_stable_open / depacketizer_unaligned_stable_open :
+  (session 2: the buffered PacketFIFO statements are now proved: packetfifo_buffered_progress / _no_livelock.)
+  (session 2: Packetizer stability for every header length is proved `_partial`: packetizer_stable_partial.)
+  theorem depacketizer_unaligned_stable_open :
       inside C16's `UOk` producer domain, with the padding bytes of a `last` beat masked, the unaligned
-      Packetizer/Depacketizer keep the contract (harness: exhaustive dw16/H3, random dw32/H6, dw64/H11).
+      Depacketizer keeps the contract (harness: exhaustive dw16/H3, random dw32/H6, dw64/H11).
   theorem packetizer_accepts_open : the aligned Packetizer serves its sink: after the W header words every
       cooperative cycle accepts a beat (AcceptsWithin (W + 1)).
   theorem arbiter_progress_subset_open : with only some masters offering (and every master that has an open packet
